@@ -83,7 +83,7 @@ def run_gen_echo(ck, tier, race, res_out):
     rc, out = sh(cmd, cwd=gen, env=goenv(), timeout=1200)
     if rc != 0:
         return {"built": False, "error": out[-3000:]}
-    n, per = (64, 300) if tier == "thorough" else (16, 100)
+    n, per = (64, 300) if tier == "thorough" else (16, 250)
     env = goenv()
     env["GORACE"] = "exitcode=0 halt_on_error=0"
     errf = open(os.path.join(ck.work, "echo_driver.stderr"), "w")
@@ -158,6 +158,12 @@ def use_gen_echo(ck, info, where):
 def run(tier, replay=None):
     ck = Check("C20", "Conc", tier)
     thorough = tier == "thorough"
+    if REPO != "/repo":
+        # a run against a scratch worktree regenerates Generated_footprint.v from THAT tree:
+        # build the engine in a private copy so that coq/Conc keeps the footprint of /repo
+        priv = os.path.join(ck.work, "coq", "Conc")
+        shutil.copytree(ck.coqdir, priv, copy_function=shutil.copy2)
+        ck.coqdir = priv
 
     # ---- harness (plain), designs -> generated code, translator -> Generated_footprint.v
     binp = ck.go_build("c20")
@@ -197,7 +203,13 @@ def run(tier, replay=None):
     # ---- dynamic evidence
     res_out = {"bin": binp}
     rbin = None
-    if thorough:
+    want_race = thorough
+    if replay:
+        try:
+            want_race = want_race or ("race_report" in json.load(open(replay)))
+        except (OSError, ValueError):
+            pass
+    if want_race:
         rbin = ck.go_build("c20", race=True)
     args = ["-mode", "run", "-seed", str(ck.seed), "-tier", tier, "-out", ck.work]
     if replay:
@@ -215,7 +227,7 @@ def run(tier, replay=None):
     distinct = res["distinct_nontrivial"] if res else 0
     gen_info = None
     if gen_ok:
-        gen_info = run_gen_echo(ck, tier, thorough, res_out)
+        gen_info = run_gen_echo(ck, tier, want_race, res_out)
         evaluations += use_gen_echo(ck, gen_info, "tier " + tier)
         if gen_info.get("raw"):
             distinct += gen_info["raw"]["distinct_nontrivial"]
@@ -282,7 +294,7 @@ def run(tier, replay=None):
                         sorted({v["location"] for v in (fp or {}).get("violations_if_setup_ran_concurrently", [])}),
                         "setup_table": sorted((fp or {}).get("setup_table_used", {}).keys())},
         "request_scoped_types": (fp or {}).get("request_scoped_types"),
-        "race_detector": "on (thorough tier)" if thorough else ("on (search after broken proof)" if searched else "off (quick tier)"),
+        "race_detector": "on (thorough tier / replay of a race report)" if want_race else ("on (search after broken proof)" if searched else "off (quick tier)"),
         "generated_echo": None if not gen_info else {k: gen_info.get(k) for k in ("built", "race", "rc")},
         "checker_cmd": "go run translate/c20 -> coq/Conc/Generated_footprint.v; coq_makefile -f coq/Conc/_CoqProject && make (coqc 8.16.1, full .vo) + Print Assumptions per theorem of Properties.v and Instance.v",
     }
